@@ -2,6 +2,7 @@ import Bec2Verif.Lemmas.Codec
 import Bec2Verif.Lemmas.Sqrt
 import Bec2Verif.Lemmas.P256Curve
 import Bec2Verif.Lemmas.KeyDer
+import Bec2Verif.Lemmas.Oid
 /-!
 # C19 — key and point encodings
 
@@ -34,6 +35,14 @@ theorem bitstring_roundtrip (body rest : Bytes) (h : Der.Encodable (body.length 
 theorem constructed_roundtrip (tag : Nat) (htag : tag < 32) (value rest : Bytes) (h : Der.Encodable value.length) :
     removeConstructed (encodeConstructed tag value ++ rest) = .ok (tag, value, rest) :=
   removeConstructed_encode tag htag value rest h
+
+/-- OBJECT IDENTIFIER, every OID the encoder is defined on (first arc 0 or 1 with second arc below 40, or first arc 2;
+sub-identifiers of any size in base 128), followed by arbitrary data -/
+theorem oid_roundtrip (first second : Nat) (pieces : List Nat) (rest : Bytes)
+    (harc : (first < 2 ∧ second < 40) ∨ first = 2)
+    (henc : Der.Encodable (encodeNumber (40 * first + second) ++ (pieces.map encodeNumber).flatten).length) :
+    removeObject (encodeOid first second pieces ++ rest) = .ok (first :: second :: pieces, rest) :=
+  removeObject_encodeOid first second pieces rest harc henc
 
 /-- a truncated length field is never readable, and every proper prefix of an encoded SEQUENCE - the outer layer of
 every key encoding - is rejected -/
